@@ -53,6 +53,14 @@ class _Expand(ast.NodeTransformer):
         self.aliases = aliases
         self.depth = 0
 
+    def visit_Call(self, node):
+        # f((X,)) and f(X) are the same for the type-taking helpers
+        # (isinstance, ancestor, walk ...): canonical form without the tuple
+        self.generic_visit(node)
+        node.args = [a.elts[0] if isinstance(a, ast.Tuple) and
+                     len(a.elts) == 1 else a for a in node.args]
+        return node
+
     def visit_Name(self, node):
         if isinstance(node.ctx, ast.Load) and node.id in self.aliases and \
                 self.depth < 3:
